@@ -10,3 +10,5 @@ import ExaModel.Props.C06
 #print axioms Exa.Props.C06.c06_error_ends_session
 #print axioms Exa.Props.C06.c06_unknown_type
 #print axioms Exa.Props.C06.c06_setmax_at_boundary
+#print axioms Exa.Props.C06.parse1_strict_prefix
+#print axioms Exa.Props.C06.c06_incomplete_tail_is_held
